@@ -9,6 +9,7 @@ import (
 	"math/rand"
 	"os"
 	"path/filepath"
+	"strings"
 
 	"github.com/canopy-network/canopy/bft"
 	"github.com/canopy-network/canopy/controller"
@@ -155,6 +156,10 @@ func newMultiSim(run int, seed int64, out *json.Encoder) (*multiSim, error) {
 	store.VerifPurgeBlockCache() // the block cache is process wide and keyed by height: a new chain must not see the previous one's blocks
 	m := &multiSim{run: run, out: out, rng: rand.New(rand.NewSource(seed)), nodes: map[string]*node{}}
 	gs := ledgerGenesis(false, false)
+	if run%3 == 1 { // a block size the mempool overflows: the proposer has to leave transactions out
+		base := gs.Params
+		gs.Params = func(p *fsm.Params) { base(p); p.Consensus.BlockSize = lib.MaxBlockHeaderSize + 1200 }
+	}
 	g, vk, ak, names := buildGenesis(gs)
 	for _, name := range []string{"A", "B", "C", "F"} {
 		dir, err := os.MkdirTemp("", "nodex-")
@@ -212,6 +217,41 @@ func (m *multiSim) oneHeight() (ok bool) {
 		b.Ops = append(b.Ops, Op{Op: "send", Who: m.rng.Intn(3), To: m.rng.Intn(3), Amt: uint64(1 + m.rng.Intn(900))})
 	}
 	var raws [][]byte
+	// transfers of different sizes (memo) and fees: with a small block size some do not fit while smaller, cheaper ones behind them would
+	extra := 0
+	if m.run%3 == 1 {
+		extra = 6 + m.rng.Intn(8)
+	}
+	if m.run%2 == 0 && h == 5 {
+		extra = 300 // more than 256 transactions in one block (index keys of the archive beyond one byte)
+	}
+	for i := 0; i < extra; i++ {
+		from := A.accKeys[i%len(A.accKeys)]
+		to := A.accKeys[(i+1)%len(A.accKeys)].PublicKey().Address()
+		memo := strings.Repeat("m", []int{0, 5, 60, 150, 200}[m.rng.Intn(5)])
+		if extra == 300 {
+			memo = ""
+		}
+		tx, e := fsm.NewSendTransaction(from, to, uint64(1+i), 1, 1, 100+uint64(m.rng.Intn(3))*50, h, memo)
+		if e != nil {
+			continue
+		}
+		bz, _ := lib.Marshal(tx)
+		raws = append(raws, bz)
+	}
+	// governance: a parameter change whose value the parameter check refuses (it fails on delivery, after the handler has
+	// touched the parameters), or a legal one; an unstake behind it reads the parameter
+	if m.rng.Intn(3) == 0 {
+		val := uint64(0) // illegal
+		if m.rng.Intn(3) == 0 {
+			val = uint64(2 + m.rng.Intn(4))
+		}
+		if tx, e := fsm.NewChangeParamTxUint64(A.accKeys[m.rng.Intn(len(A.accKeys))], fsm.ParamSpaceVal, fsm.ParamUnstakingBlocks, val, 0, 1000000, 1, 1, 20000, h, ""); e == nil {
+			bz, _ := lib.Marshal(tx)
+			raws = append(raws, bz)
+			b.Ops = append(b.Ops, Op{Op: "unstake", Who: 1 + m.rng.Intn(3)})
+		}
+	}
 	for _, o := range b.Ops {
 		tx, err := m.sim.txFor(o)
 		if err != nil {
